@@ -48,3 +48,13 @@ func (i *InMemCollector) VerifCheckTrace(traceID string) (found bool, kept bool,
 	}
 	return true, rec.Kept(), rec.Rate(), reason
 }
+
+// VerifQueueLens returns, per worker, how many spans wait unprocessed in the
+// incoming and in the peer queue.
+func (i *InMemCollector) VerifQueueLens() [][2]int {
+	out := make([][2]int, len(i.workers))
+	for idx, w := range i.workers {
+		out[idx] = [2]int{len(w.incoming), len(w.fromPeer)}
+	}
+	return out
+}
